@@ -310,6 +310,9 @@ def join_aux(source_name, source_key, source_delete,  # noqa: C901
                 if copy_properties:
                     to_copy = copy.deepcopy(source_field)
                 data_type = source_field['type']
+                if agg == 'median' and data_type == 'integer':
+                    # the median of an even number of integers may be fractional
+                    data_type = 'number'
             try:
                 existing_field = next(iter(filter(
                     lambda f: f['name'] == name,
